@@ -773,11 +773,15 @@ Ltac sp := cbn [filt started parent pz zx kids dw cw pending dver watching nodes
 
 Lemma invA_init f : InvA (init f).
 Proof.
-  split; cbn; try discriminate; auto.
+  split.
   - intros _. repeat split.
+  - intros _. split; reflexivity.
   - constructor.
-  - lia.
-  - split; cbn; try discriminate; auto. intros b []. constructor.
+  - cbn. discriminate.
+  - cbn. discriminate.
+  - reflexivity.
+  - cbn. lia.
+  - split; cbn; try discriminate; auto; [intros b []|constructor].
   - intros n. unfold expects. cbn. discriminate.
 Qed.
 
@@ -807,6 +811,19 @@ Proof.
   - intros n. rewrite (expects_ext s s' M Q K F), N. apply Ie1.
 Qed.
 
+Ltac env_fin Ipre Idw :=
+  first
+  [ solve [let H := fresh in let X1 := fresh in let X2 := fresh in let X3 := fresh in
+           intros H; destruct (Ipre H) as (X1 & X2 & X3 & _); try rewrite X2; try rewrite X3;
+           repeat split; auto; try discriminate; try congruence]
+  | solve [let H := fresh in intros H; specialize (Idw H);
+           repeat match goal with E : dw _ = _ |- _ => rewrite E in * end;
+           rewrite ?count_pd_app, ?count_pd_repeat in *; cbn in *; lia]
+  | solve [repeat match goal with E : dw _ = _ |- _ => rewrite E in * end;
+           repeat match goal with E : parent _ = _ |- _ => rewrite E in * end; discriminate]
+  | solve [lia]
+  | idtac ].
+
 Lemma count_pd_fire p k : count_pd (p ++ repeat PChild k) = count_pd p.
 Proof. rewrite count_pd_app, count_pd_repeat. lia. Qed.
 
@@ -816,13 +833,12 @@ Proof.
   pose proof I as [Ipre Iabs Ikids Idw Iver Iwat Ifresh Iwi Ie1]. destruct (Iabs P) as (Kd & Cw).
   unfold fire_data. sp. destruct (dw s) eqn:Edw.
   - apply (invA_env s); try reflexivity; sp; auto; try discriminate.
-    + intros H. destruct (Ipre H) as (X & _). congruence.
+    + intros H. destruct (Ipre H) as (X & _). discriminate.
     + intros H. specialize (Idw H). rewrite count_pd_app. cbn. lia.
-    + rewrite Cw. lia.
   - apply (invA_env s); try reflexivity; sp; auto; try discriminate.
     + intros H. destruct (Ipre H) as (_ & X & Y & _). auto.
+    + rewrite Edw. exact Idw.
     + rewrite Edw. discriminate.
-    + rewrite Cw. lia.
 Qed.
 
 Lemma invA_touch_parent s : InvA s -> InvA (step s TouchParent).
@@ -830,43 +846,8 @@ Proof.
   intros I. cbn [step]. destruct (parent s) eqn:P; [|exact I].
   pose proof I as [Ipre Iabs Ikids Idw Iver Iwat Ifresh Iwi Ie1].
   unfold fire_data. sp. destruct (dw s) eqn:Edw.
-  - apply (invA_env s); try reflexivity; sp; auto; try discriminate.
-    + intros H. destruct (Ipre H) as (X & _). congruence.
-    + rewrite P. discriminate.
-    + intros H. specialize (Idw H). rewrite count_pd_app. cbn. lia.
-  - apply (invA_env s); try reflexivity; sp; auto; try discriminate.
-    + intros H. destruct (Ipre H) as (_ & X & Y & _). auto.
-    + rewrite P. discriminate.
-    + rewrite Edw. discriminate.
-Qed.
-
-Lemma invA_delete_parent s : InvA s -> InvA (step s DeleteParent).
-Proof.
-  intros I. cbn [step]. destruct (parent s) eqn:P; [|exact I].
-  pose proof I as [Ipre Iabs Ikids Idw Iver Iwat Ifresh Iwi Ie1].
-  assert (Pre : started s = false -> dw s = false /\ cw s = 0%nat /\ pending s = []).
-  { intros H. destruct (Ipre H) as (X & Y & Z & _). auto. }
-  set (s1 := match kids s with [] => s | _ :: _ => fire_children s end).
-  assert (S1 : filt s1 = filt s /\ started s1 = started s /\ dver s1 = dver s /\ watching s1 = watching s /\
-               nodes s1 = nodes s /\ members s1 = members s /\ queue s1 = queue s /\ wk s1 = wk s /\ log s1 = log s /\
-               dw s1 = dw s /\ count_pd (pending s1) = count_pd (pending s) /\
-               (started s = false -> pending s1 = [] /\ cw s1 = 0%nat)).
-  { subst s1. destruct (kids s); [repeat split; auto; intros H; destruct (Pre H) as (_ & X & Y); auto|].
-    unfold fire_children. sp. repeat split; auto; [apply count_pd_fire|].
-    intros H. destruct (Pre H) as (_ & X & Y). rewrite X, Y. reflexivity. }
-  destruct S1 as (a1 & a2 & a3 & a4 & a5 & a6 & a7 & a8 & a9 & a10 & a11 & a12).
-  unfold fire_data, fire_children. sp. rewrite a10. destruct (dw s) eqn:Edw; sp.
-  - apply (invA_env s); sp; auto; try discriminate.
-    + intros H. destruct (Pre H) as (X & _). congruence.
-    + constructor.
-    + intros H. specialize (Idw H). rewrite count_pd_fire, count_pd_app, a11. cbn. lia.
-    + lia.
-  - apply (invA_env s); sp; auto; try discriminate.
-    + intros H. destruct (a12 H) as (X & Y). rewrite X, Y. auto.
-    + constructor.
-    + intros H. specialize (Idw H). rewrite Edw, count_pd_fire, a11. exact Idw.
-    + rewrite Edw. discriminate.
-    + lia.
+  - apply (invA_env s); try reflexivity; sp; auto; try discriminate; env_fin Ipre Idw.
+  - apply (invA_env s); try reflexivity; sp; auto; try discriminate; env_fin Ipre Idw.
 Qed.
 
 Lemma invA_create n s : InvA s -> InvA (step s (Create n)).
@@ -874,12 +855,9 @@ Proof.
   intros I. cbn [step]. destruct (parent s && negb (mem n (kids s))) eqn:C; [|exact I].
   apply andb_true_iff in C as [P C]. apply negb_true_iff in C.
   pose proof I as [Ipre Iabs Ikids Idw Iver Iwat Ifresh Iwi Ie1].
-  unfold fire_children. sp. apply (invA_env s); try reflexivity; sp; auto; try discriminate.
-  - intros H. destruct (Ipre H) as (X & Y & Z & _). rewrite Y, Z. auto.
-  - rewrite P. discriminate.
-  - constructor; [|exact Ikids]. intros H. apply mem_In in H. congruence.
-  - intros H. rewrite count_pd_fire. apply Idw. exact H.
-  - lia.
+  unfold fire_children. sp. apply (invA_env s); try reflexivity; sp; auto; try discriminate; env_fin Ipre Idw.
+  all: try (constructor; [|exact Ikids]; intros H; apply mem_In in H; congruence).
+  all: try (intros H; rewrite count_pd_fire; apply Idw; exact H).
 Qed.
 
 Lemma invA_delete n s : InvA s -> InvA (step s (Delete n)).
@@ -887,19 +865,523 @@ Proof.
   intros I. cbn [step]. destruct (parent s && mem n (kids s)) eqn:C; [|exact I].
   apply andb_true_iff in C as [P C].
   pose proof I as [Ipre Iabs Ikids Idw Iver Iwat Ifresh Iwi Ie1].
-  unfold fire_children. sp. apply (invA_env s); try reflexivity; sp; auto; try discriminate.
-  - intros H. destruct (Ipre H) as (X & Y & Z & _). rewrite Y, Z. auto.
-  - rewrite P. discriminate.
-  - apply NoDup_remove_z. exact Ikids.
-  - intros H. rewrite count_pd_fire. apply Idw. exact H.
-  - lia.
+  unfold fire_children. sp. apply (invA_env s); try reflexivity; sp; auto; try discriminate; env_fin Ipre Idw.
+  all: try (apply NoDup_remove_z; exact Ikids).
+  all: try (intros H; rewrite count_pd_fire; apply Idw; exact H).
 Qed.
 
 Lemma invA_raise s : InvA s -> InvA (step s CallbackRaises).
 Proof.
   intros I. pose proof I as [Ipre Iabs Ikids Idw Iver Iwat Ifresh Iwi Ie1]. cbn [step].
-  apply (invA_env s); try reflexivity; sp; auto.
-  intros H. destruct (Ipre H) as (X & Y & Z & _). auto.
+  apply (invA_env s); try reflexivity; sp; auto; env_fin Ipre Idw.
 Qed.
 
-(* PART-C6 *)
+Lemma invA_delete_parent s : InvA s -> InvA (step s DeleteParent).
+Proof.
+  intros I. cbn [step]. destruct (parent s) eqn:P; [|exact I].
+  pose proof I as [Ipre Iabs Ikids Idw Iver Iwat Ifresh Iwi Ie1].
+  assert (Pre : started s = false -> dw s = false /\ cw s = 0%nat /\ pending s = []).
+  { intros HH. destruct (Ipre HH) as (X & Y & Z & _). auto. }
+  set (s1 := match kids s with [] => s | _ :: _ => fire_children s end).
+  assert (S1 : filt s1 = filt s /\ started s1 = started s /\ dver s1 = dver s /\ watching s1 = watching s /\
+               nodes s1 = nodes s /\ members s1 = members s /\ queue s1 = queue s /\ wk s1 = wk s /\ log s1 = log s /\
+               dw s1 = dw s /\ count_pd (pending s1) = count_pd (pending s) /\
+               (started s = false -> pending s1 = [] /\ cw s1 = 0%nat)).
+  { subst s1. destruct (kids s).
+    - repeat split; auto; destruct (Pre ltac:(assumption)) as (_ & X & Y); auto.
+    - unfold fire_children. sp. repeat split; auto; try apply count_pd_fire;
+        destruct (Pre ltac:(assumption)) as (_ & X & Y); rewrite ?X, ?Y; reflexivity. }
+  destruct S1 as (a1 & a2 & a3 & a4 & a5 & a6 & a7 & a8 & a9 & a10 & a11 & a12).
+  unfold fire_data, fire_children. sp. rewrite a10. destruct (dw s) eqn:Edw; sp.
+  - apply (invA_env s); sp; auto; try discriminate.
+    all: try (intros HH; destruct (Pre HH) as (X & _); congruence).
+    all: try constructor.
+    all: try (intros HH; specialize (Idw HH); rewrite count_pd_fire, count_pd_app, a11; cbn in *; lia).
+    all: try lia.
+  - apply (invA_env s); sp; auto; try discriminate.
+    all: try (intros HH; destruct (a12 HH) as (X & Y); rewrite X, Y; auto).
+    all: try constructor.
+    all: try (intros HH; specialize (Idw HH); rewrite ?Edw, count_pd_fire, a11; exact Idw).
+    all: try lia.
+    all: try (rewrite a10; discriminate).
+    intros HH. specialize (Idw HH). rewrite a10, count_pd_fire, a11. exact Idw.
+Qed.
+
+Lemma invA_worker h s : InvA s -> InvA (step s (WorkerStep h)).
+Proof.
+  intros I. cbn [step]. destruct (started s) eqn:St; [|exact I].
+  pose proof I as [Ipre Iabs Ikids Idw Iver Iwat Ifresh Iwi Ie1].
+  destruct (worker_step_WI h s Iwi) as (W & E & X). unfold wenv in E.
+  injection E as E1 E2 E3 E4 E5 E6 E7 E8 E9 E10 E11 E12. split.
+  - rewrite E2, St. discriminate.
+  - rewrite E3, E6, E8. exact Iabs.
+  - rewrite E6. exact Ikids.
+  - rewrite E2, E7, E9. exact Idw.
+  - unfold cur_ver. rewrite E7, E10, E3, E4. exact Iver.
+  - rewrite E11, E10. exact Iwat.
+  - rewrite E8, E12, E6. unfold flt. rewrite E1. exact Ifresh.
+  - exact W.
+  - intros n Hn. rewrite E12. apply Ie1. destruct (X n) as [Eq|[Ef _]]; congruence.
+Qed.
+
+(* what data_body needs of the state it runs in (the state right after the watch callback was taken
+   from the pending list, or right after construction) *)
+Record PreA (t : state) : Prop := {
+  pa_started : started t = true;
+  pa_pd : count_pd (pending t) = 0%nat;
+  pa_absent : parent t = false -> kids t = [] /\ cw t = 0%nat;
+  pa_kids : NoDup (kids t);
+  pa_watching : watching t = match dver t with Some _ => true | None => false end;
+  pa_fresh : (1 <= cw t)%nat -> forall n, mem n (nodes t) = mem n (filter (flt t) (kids t));
+  pa_wi : WI t;
+  pa_e1 : forall n, expects t n = true -> mem n (nodes t) = true }.
+
+Definition sar_runs (f : bool) (t : state) : bool :=
+  negb (parent t) && (f || match dver t with Some _ => true | None => false end).
+
+Lemma data_body_unfold f t :
+  data_body f t =
+  let t1 := set_dver (cur_ver t) (set_dw true t) in
+  if f || negb (option_eqb Z.eqb (cur_ver t) (dver t)) then
+    (if parent t then (if watching t then t1
+                       else on_set_changed (kids t) (set_cw (S (cw t)) (set_watching true t1)))
+     else send_all_removed (set_watching false t1))
+  else t1.
+Proof. reflexivity. Qed.
+
+Lemma data_body_invA f t :
+  PreA t -> (sar_runs f t = true -> queue t = [] /\ wk t = None) -> InvA (data_body f t).
+Proof.
+  intros [Pst Ppd Pabs Pkids Pwat Pfresh Pwi Pe1] Fence. rewrite data_body_unfold. cbv zeta.
+  set (t1 := set_dver (cur_ver t) (set_dw true t)).
+  assert (W1 : WI t1) by (apply (WI_ext t); try reflexivity; exact Pwi).
+  assert (X1 : forall n, expects t1 n = expects t n) by (apply expects_ext; reflexivity).
+  destruct (f || negb (option_eqb Z.eqb (cur_ver t) (dver t))) eqn:Call.
+  - destruct (parent t) eqn:P.
+    + destruct (watching t) eqn:Wt.
+      * (* already watching *)
+        subst t1. split; sp; auto; try discriminate.
+        all: try (rewrite Pst; discriminate).
+        all: try (rewrite Ppd; reflexivity).
+        all: try (unfold cur_ver; sp; reflexivity).
+        all: try (unfold cur_ver; rewrite P; reflexivity).
+        all: try (rewrite P; discriminate).
+        all: try (rewrite Wt; unfold cur_ver; rewrite P; reflexivity).
+      * (* begin watch *)
+        set (t2 := set_cw (S (cw t)) (set_watching true t1)).
+        assert (W2 : WI t2) by (apply (WI_ext t); try reflexivity; exact Pwi).
+        assert (E2 : forall n, expects t2 n = true -> mem n (nodes t2) = true).
+        { intros n. change (expects t2 n) with (expects t n). change (nodes t2) with (nodes t). apply Pe1. }
+        destruct (osc_WI (kids t) t2 W2 E2 Pkids) as (W3 & E3).
+        change (kids t) with (kids t2) at 1. split.
+        -- unfold on_set_changed. subst t2 t1. sp. rewrite Pst. discriminate.
+        -- unfold on_set_changed. subst t2 t1. sp. rewrite P. discriminate.
+        -- exact Pkids.
+        -- unfold on_set_changed. subst t2 t1. sp. rewrite Ppd. reflexivity.
+        -- unfold on_set_changed. subst t2 t1. sp. unfold cur_ver. sp. reflexivity.
+        -- unfold on_set_changed. subst t2 t1. sp. unfold cur_ver. rewrite P. reflexivity.
+        -- intros _ n. unfold on_set_changed. subst t2 t1. sp. reflexivity.
+        -- exact W3.
+        -- exact E3.
+    + (* path absent: all removed *)
+      set (t2 := set_watching false t1).
+      assert (QK : queue t2 = [] /\ wk t2 = None).
+      { apply Fence. unfold sar_runs. rewrite P. cbn [negb andb]. unfold cur_ver in Call. rewrite P in Call.
+        destruct f; [reflexivity|]. destruct (dver t); [reflexivity|discriminate]. }
+      destruct QK as (Q2 & K2).
+      assert (W2 : WI t2) by (apply (WI_ext t); try reflexivity; exact Pwi).
+      destruct (sar_frame t2) as (Fr & M & N & Q' & K'). unfold wenv2 in Fr.
+      injection Fr as F1 F2 F3 F4 F5 F6 F7 F8 F9 F10 F11.
+      assert (CV : cur_ver (send_all_removed t2) = cur_ver t) by (unfold cur_ver; rewrite F3, F4; reflexivity).
+      subst t2 t1. sp.
+      destruct (Pabs eq_refl) as (Kd & Cw). split.
+      -- rewrite F2, Pst. discriminate.
+      -- rewrite F6, F8. auto.
+      -- rewrite F6. exact Pkids.
+      -- rewrite F7, F9, Ppd. reflexivity.
+      -- intros _. rewrite F10, CV. reflexivity.
+      -- rewrite F11, F10. unfold cur_ver. rewrite P. reflexivity.
+      -- rewrite F8, Cw. lia.
+      -- apply sar_WI; assumption.
+      -- intros n. rewrite sar_expects by assumption. discriminate.
+  - (* same version as last time: the function is not called *)
+    assert (Ev : cur_ver t = dver t).
+    { apply option_eqb_Z_spec. destruct f; [discriminate|]. cbn in Call. apply negb_false_iff in Call. exact Call. }
+    subst t1. split; sp; auto; try discriminate.
+    all: try (rewrite Pst; discriminate).
+    all: try (rewrite Ppd; reflexivity).
+    all: try (unfold cur_ver; sp; reflexivity).
+    all: try (rewrite Ev; exact Pwat).
+Qed.
+
+Lemma invA_started_of_pending s : InvA s -> pending s <> [] -> started s = true.
+Proof.
+  intros I H. destruct (started s) eqn:St; [reflexivity|].
+  destruct (ia_pre s I St) as (_ & _ & X & _). contradiction.
+Qed.
+
+Lemma invA_start s : InvA s -> InvA (step s Start).
+Proof.
+  intros I. cbn [step]. destruct (started s) eqn:St; [exact I|].
+  pose proof I as [Ipre Iabs Ikids Idw Iver Iwat Ifresh Iwi Ie1].
+  destruct (Ipre St) as (a1 & a2 & a3 & a4 & a5 & a6 & a7 & a8 & a9 & a10).
+  apply data_body_invA.
+  - split; sp; auto.
+    + rewrite a3. reflexivity.
+    + apply (WI_ext s); try reflexivity. exact Iwi.
+  - intros _. sp. auto.
+Qed.
+
+Lemma invA_deliver s : InvA s -> guard_fence s Deliver = true -> InvA (step s Deliver).
+Proof.
+  intros I G. cbn [step]. destruct (pending s) as [|[|] r] eqn:Pe; [exact I| |].
+  - (* data watch *)
+    assert (St : started s = true) by (apply invA_started_of_pending; [exact I|rewrite Pe; discriminate]).
+    pose proof I as [Ipre Iabs Ikids Idw Iver Iwat Ifresh Iwi Ie1].
+    specialize (Idw St). rewrite Pe in Idw. cbn [count_pd] in Idw.
+    apply data_body_invA.
+    + split; sp; auto.
+      * destruct (dw s); lia.
+      * apply (WI_ext s); try reflexivity. exact Iwi.
+    + unfold sar_runs. sp. cbn [orb]. intros H. apply andb_true_iff in H as [H1 H2].
+      apply negb_true_iff in H1. unfold guard_fence in G. rewrite Pe, H1 in G.
+      destruct (dver s); [|discriminate]. destruct (queue s); [|discriminate]. destruct (wk s); [discriminate|]. auto.
+  - (* children watch *)
+    assert (St : started s = true) by (apply invA_started_of_pending; [exact I|rewrite Pe; discriminate]).
+    pose proof I as [Ipre Iabs Ikids Idw Iver Iwat Ifresh Iwi Ie1].
+    unfold children_body. sp. destruct (parent s) eqn:P.
+    + set (t := set_cw (S (cw s)) (set_pending r s)).
+      assert (Wt : WI t) by (apply (WI_ext s); try reflexivity; exact Iwi).
+      assert (Et : forall n, expects t n = true -> mem n (nodes t) = true) by exact Ie1.
+      destruct (osc_WI (kids s) t Wt Et Ikids) as (W3 & E3).
+      split; try exact W3; try exact E3; unfold on_set_changed; subst t; sp.
+      * rewrite St. discriminate.
+      * rewrite P. discriminate.
+      * exact Ikids.
+      * intros _. specialize (Idw St). rewrite Pe in Idw. exact Idw.
+      * exact Iver.
+      * exact Iwat.
+      * intros _ n. reflexivity.
+    + apply (invA_env s); try reflexivity; sp; auto.
+      * rewrite St. discriminate.
+      * intros _. specialize (Idw St). rewrite Pe in Idw. exact Idw.
+Qed.
+
+Lemma invA_step s l : InvA s -> guard_fence s l = true -> InvA (step s l).
+Proof.
+  intros I G. destruct l.
+  - apply invA_start; exact I.
+  - apply invA_create_parent; exact I.
+  - apply invA_delete_parent; exact I.
+  - apply invA_touch_parent; exact I.
+  - apply invA_create; exact I.
+  - apply invA_delete; exact I.
+  - apply invA_deliver; assumption.
+  - apply invA_worker; exact I.
+  - apply invA_raise; exact I.
+Qed.
+
+Lemma invA_run ls : forall s, InvA s -> guarded guard_fence s ls = true -> InvA (run s ls).
+Proof.
+  induction ls as [|l r IH]; intros s I G; [exact I|]. cbn [guarded] in G. apply andb_true_iff in G as [G1 G2].
+  cbn [run fold_left]. apply IH; [apply invA_step; assumption|exact G2].
+Qed.
+
+(* ---------------------------------------------------------------------------------------------- *)
+(* alternation from the well-formed log                                                            *)
+Fixpoint nexte (e : kind) (ks : list kind) : kind :=
+  match ks with [] => e | _ :: r => nexte (flip e) r end.
+
+Lemma kind_eqb_refl k : kind_eqb k k = true. Proof. destruct k; reflexivity. Qed.
+Lemma kind_eqb_eq a b : kind_eqb a b = true -> a = b. Proof. destruct a, b; cbn; congruence. Qed.
+
+Lemma alternating_snoc ks : forall e k,
+  alternating e (ks ++ [k]) = alternating e ks && kind_eqb k (nexte e ks).
+Proof.
+  induction ks as [|x r IH]; intros e k; cbn [app alternating nexte].
+  - rewrite andb_true_r. reflexivity.
+  - rewrite IH. destruct (kind_eqb x e) eqn:E; [|reflexivity]. apply kind_eqb_eq in E. subst x.
+    cbn [andb]. reflexivity.
+Qed.
+
+Lemma nexte_snoc ks : forall e k, nexte e (ks ++ [k]) = flip (nexte e ks).
+Proof. induction ks as [|x r IH]; intros e k; cbn [app nexte]; [reflexivity|apply IH]. Qed.
+
+Lemma kinds_of_snoc n l e :
+  kinds_of n (l ++ [e]) = kinds_of n l ++ (if Z.eqb (ev_name e) n then [ev_kind e] else []).
+Proof.
+  unfold kinds_of. rewrite filter_app, map_app. cbn [filter]. destruct (ev_name e =? n); reflexivity.
+Qed.
+
+Lemma wf_log_alternating lg : wf_log lg = true -> forall n,
+  alternating Join (kinds_of n (rev lg)) = true /\
+  nexte Join (kinds_of n (rev lg)) = (if mem n (view lg) then Leave else Join).
+Proof.
+  induction lg as [|e older IH]; intros W n; [split; reflexivity|].
+  cbn [wf_log] in W. apply andb_true_iff in W as [W1 W2]. destruct (IH W1 n) as (A & N).
+  cbn [rev]. rewrite kinds_of_snoc. destruct (Z.eqb_spec (ev_name e) n) as [En|Hne].
+  - rewrite alternating_snoc, nexte_snoc, A, N. cbn [view]. subst n.
+    destruct (ev_kind e).
+    + apply negb_true_iff in W2. rewrite W2. rewrite mem_cons, Z.eqb_refl. split; reflexivity.
+    + rewrite W2. rewrite mem_remove_z, Z.eqb_refl, andb_false_r. split; reflexivity.
+  - rewrite app_nil_r. split; [exact A|]. rewrite N. cbn [view].
+    assert (Hn : (n =? ev_name e) = false) by (apply Z.eqb_neq; congruence).
+    destruct (ev_kind e).
+    + rewrite mem_cons, Hn. reflexivity.
+    + rewrite mem_remove_z, Hn, andb_true_r. reflexivity.
+Qed.
+
+(* ---------------------------------------------------------------------------------------------- *)
+(* InvB: holds along every history that respects G1, G2 and G3                                     *)
+Record InvB (s : state) : Prop := {
+  ib_alive : parent s = true -> watching s = true -> (1 <= cw s + count_pc (pending s))%nat;
+  ib_pd : (1 <= count_pd (pending s))%nat -> parent s = false -> dver s <> None;
+  ib_settled : started s = true -> parent s = false -> dw s = true ->
+               members s = [] /\ nodes s = [] /\ queue s = [] /\ wk s = None;
+  ib_e2 : forall n, mem n (nodes s) = true -> expects s n = false -> parent s && mem n (kids s) = false }.
+
+Lemma invB_init f : InvB (init f).
+Proof. split; cbn; try discriminate; auto; intros; lia. Qed.
+
+Lemma count_pc_fire p k : count_pc (p ++ repeat PChild k) = (count_pc p + k)%nat.
+Proof. rewrite count_pc_app, count_pc_repeat. reflexivity. Qed.
+
+Lemma has_pdata_false p : has_pdata p = false -> count_pd p = 0%nat.
+Proof. rewrite has_pdata_count. intros H. apply negb_false_iff in H. apply Nat.eqb_eq in H. exact H. Qed.
+
+(* no data-watch notification undelivered: the component has seen the current incarnation *)
+Lemma settled_view s : InvA s -> count_pd (pending s) = 0%nat ->
+  (started s = true -> dw s = true /\ dver s = cur_ver s) /\
+  (parent s = false -> watching s = false).
+Proof.
+  intros [Ipre Iabs Ikids Idw Iver Iwat Ifresh Iwi Ie1] C.
+  assert (A : started s = true -> dw s = true /\ dver s = cur_ver s).
+  { intros St. specialize (Idw St). rewrite C in Idw. destruct (dw s) eqn:E; [|cbn in Idw; lia]. auto. }
+  split; [exact A|]. intros P. destruct (started s) eqn:St.
+  - destruct (A eq_refl) as (_ & V). rewrite Iwat, V. unfold cur_ver. rewrite P. reflexivity.
+  - destruct (Ipre eq_refl) as (_ & _ & _ & _ & _ & _ & _ & _ & _ & X). exact X.
+Qed.
+
+Lemma invB_create_parent s : InvA s -> InvB s -> guard_path s CreateParent = true -> InvB (step s CreateParent).
+Proof.
+  intros IA [Bal Bpd Bse Be2] G. cbn [step]. destruct (parent s) eqn:P; [split; rewrite ?P; assumption|].
+  cbn [guard_path] in G. rewrite P in G. cbn [orb] in G. apply negb_true_iff in G. apply has_pdata_false in G.
+  destruct (settled_view s IA G) as (_ & Wf). specialize (Wf P).
+  destruct (ia_absent s IA P) as (Kd & _).
+  unfold fire_data. sp. destruct (dw s); split; sp; try discriminate.
+  all: try (intros _ H; rewrite Wf in H; discriminate).
+  all: try (intros n _ _; rewrite Kd; reflexivity).
+Qed.
+
+Lemma invB_touch_parent s : InvB s -> InvB (step s TouchParent).
+Proof.
+  intros [Bal Bpd Bse Be2]. cbn [step]. destruct (parent s) eqn:P; [|split; rewrite ?P; assumption].
+  unfold fire_data. sp. destruct (dw s) eqn:Edw; split; sp; try discriminate.
+  all: try (rewrite count_pc_app; cbn [count_pc]; rewrite Nat.add_0_r; intros _; apply Bal; reflexivity).
+  all: try (intros _; apply Bal; reflexivity).
+  all: try (rewrite P; discriminate).
+  all: try (intros n; rewrite P; exact (Be2 n)).
+Qed.
+
+Lemma invB_delete_parent s : InvA s -> InvB s -> guard_path s DeleteParent = true -> InvB (step s DeleteParent).
+Proof.
+  intros IA [Bal Bpd Bse Be2] G. cbn [step]. destruct (parent s) eqn:P; [|split; rewrite ?P; assumption].
+  cbn [guard_path] in G. rewrite P in G. cbn [negb orb] in G. apply negb_true_iff in G. apply has_pdata_false in G.
+  destruct (settled_view s IA G) as (Sv & _).
+  set (s1 := match kids s with [] => s | _ :: _ => fire_children s end).
+  assert (S1 : started s1 = started s /\ dver s1 = dver s /\ dw s1 = dw s /\ count_pd (pending s1) = 0%nat).
+  { subst s1. destruct (kids s); [auto|]. unfold fire_children. sp. rewrite count_pd_fire. auto. }
+  destruct S1 as (a1 & a2 & a3 & a4).
+  unfold fire_data, fire_children. sp. rewrite a3. destruct (dw s) eqn:Edw; split; sp; try discriminate.
+  all: try (intros; reflexivity).
+  - intros _ _. rewrite a2. destruct (started s) eqn:St.
+    + destruct (Sv eq_refl) as (_ & V). rewrite V. unfold cur_ver. rewrite P. discriminate.
+    + destruct (ia_pre s IA St) as (X & _). congruence.
+  - rewrite count_pd_fire, a4. lia.
+  - rewrite a3. discriminate.
+Qed.
+
+Lemma invB_create n s : InvB s -> guard_noflap s (Create n) = true -> InvB (step s (Create n)).
+Proof.
+  intros [Bal Bpd Bse Be2] G. cbn [step]. cbn [guard_noflap] in G.
+  destruct (parent s && negb (mem n (kids s))) eqn:C; [|split; assumption].
+  apply andb_true_iff in C as [P C]. apply negb_true_iff in G. unfold lost in G.
+  unfold fire_children. split; sp; try (rewrite P; discriminate).
+  - intros _ Hw. rewrite count_pc_fire. specialize (Bal P Hw). lia.
+  - intros m Hm He. rewrite mem_cons. destruct (Z.eqb_spec m n) as [->|Hne].
+    + change (expects _ n) with (expects s n) in He. rewrite Hm, He in G. discriminate.
+    + cbn [orb]. apply (Be2 m Hm He).
+Qed.
+
+Lemma invB_delete n s : InvB s -> InvB (step s (Delete n)).
+Proof.
+  intros [Bal Bpd Bse Be2]. cbn [step].
+  destruct (parent s && mem n (kids s)) eqn:C; [|split; assumption].
+  apply andb_true_iff in C as [P C].
+  unfold fire_children. split; sp; try (rewrite P; discriminate).
+  - intros _ Hw. rewrite count_pc_fire. specialize (Bal P Hw). lia.
+  - intros m Hm He. specialize (Be2 m Hm He). rewrite mem_remove_z. rewrite P in *. cbn [andb] in *.
+    rewrite Be2. reflexivity.
+Qed.
+
+Lemma invB_raise s : InvB s -> InvB (step s CallbackRaises).
+Proof. intros [Bal Bpd Bse Be2]. cbn [step]. split; sp; assumption. Qed.
+
+Lemma invB_worker h s : InvA s -> InvB s -> InvB (step s (WorkerStep h)).
+Proof.
+  intros IA IB. cbn [step]. destruct (started s) eqn:St; [|exact IB].
+  destruct IB as [Bal Bpd Bse Be2].
+  destruct (worker_step_WI h s (ia_wi s IA)) as (W & E & X). unfold wenv in E.
+  injection E as E1 E2 E3 E4 E5 E6 E7 E8 E9 E10 E11 E12. split.
+  - rewrite E3, E11, E8, E9. exact Bal.
+  - rewrite E9, E3, E10. exact Bpd.
+  - rewrite E2, E3, E7. intros H1 H2 H3. destruct (Bse H1 H2 H3) as (M & N & Q & K).
+    unfold worker_step, drain. rewrite K, Q. cbn [drain_q]. sp. auto.
+  - intros n. rewrite E12, E3, E6. intros Hn He. destruct (X n) as [Eq|[_ Ef]]; [|exact Ef].
+    apply Be2; congruence.
+Qed.
+
+Lemma data_body_invB f t :
+  PreA t -> (sar_runs f t = true -> queue t = [] /\ wk t = None) ->
+  (parent t = true -> watching t = true -> (1 <= cw t + count_pc (pending t))%nat) ->
+  (f = false -> parent t = false -> dver t <> None) ->
+  (forall n, mem n (nodes t) = true -> expects t n = false -> parent t && mem n (kids t) = false) ->
+  InvB (data_body f t).
+Proof.
+  intros [Pst Ppd Pabs Pkids Pwat Pfresh Pwi Pe1] Fence Bal Bpd Be2. rewrite data_body_unfold. cbv zeta.
+  set (t1 := set_dver (cur_ver t) (set_dw true t)).
+  destruct (f || negb (option_eqb Z.eqb (cur_ver t) (dver t))) eqn:Call.
+  - destruct (parent t) eqn:P.
+    + destruct (watching t) eqn:Wt.
+      * subst t1. split; sp; try (rewrite P; discriminate).
+        all: try (intros _ _; apply Bal; reflexivity).
+        all: try (rewrite Ppd; lia).
+        all: try (intros n; rewrite P; exact (Be2 n)).
+      * set (t2 := set_cw (S (cw t)) (set_watching true t1)).
+        assert (E2 : forall n, mem n (nodes t2) = true -> expects t2 n = false -> parent t2 && mem n (kids t2) = false).
+        { intros n. change (expects t2 n) with (expects t n). subst t2 t1. sp. rewrite P. exact (Be2 n). }
+        pose proof (osc_e2 t2 P E2) as E3. change (kids t2) with (kids t) in E3.
+        split.
+        -- unfold on_set_changed. subst t2 t1. sp. intros _ _. lia.
+        -- unfold on_set_changed. subst t2 t1. sp. rewrite Ppd. lia.
+        -- unfold on_set_changed. subst t2 t1. sp. rewrite P. discriminate.
+        -- intros n Hn He. specialize (E3 n Hn He). unfold on_set_changed. subst t2 t1. sp. exact E3.
+    + set (t2 := set_watching false t1).
+      assert (QK : queue t2 = [] /\ wk t2 = None).
+      { apply Fence. unfold sar_runs. rewrite P. cbn [negb andb]. unfold cur_ver in Call. rewrite P in Call.
+        destruct f; [reflexivity|]. destruct (dver t); [reflexivity|discriminate]. }
+      destruct QK as (Q2 & K2).
+      destruct (sar_frame t2) as (Fr & M & N & Q' & K'). unfold wenv2 in Fr.
+      injection Fr as F1 F2 F3 F4 F5 F6 F7 F8 F9 F10 F11. split.
+      -- rewrite F3. subst t2 t1. sp. rewrite P. discriminate.
+      -- rewrite F9. subst t2 t1. sp. rewrite Ppd. lia.
+      -- intros _ _ _. rewrite M, N, Q', K'. auto.
+      -- intros n. rewrite N. discriminate.
+  - assert (Ev : cur_ver t = dver t).
+    { apply option_eqb_Z_spec. destruct f; [discriminate|]. cbn in Call. apply negb_false_iff in Call. exact Call. }
+    assert (Ff : f = false) by (destruct f; [discriminate|reflexivity]).
+    subst t1. split; sp.
+    + exact Bal.
+    + rewrite Ppd. lia.
+    + intros _ P _. exfalso. apply (Bpd Ff P). rewrite <- Ev. unfold cur_ver. rewrite P. reflexivity.
+    + exact Be2.
+Qed.
+
+Lemma invB_start s : InvA s -> InvB s -> InvB (step s Start).
+Proof.
+  intros IA IB. cbn [step]. destruct (started s) eqn:St; [exact IB|].
+  pose proof IA as [Ipre Iabs Ikids Idw Iver Iwat Ifresh Iwi Ie1].
+  destruct (Ipre St) as (a1 & a2 & a3 & a4 & a5 & a6 & a7 & a8 & a9 & a10).
+  apply data_body_invB.
+  - split; sp; auto.
+    + rewrite a3. reflexivity.
+    + apply (WI_ext s); try reflexivity. exact Iwi.
+  - intros _. sp. auto.
+  - sp. rewrite a10. discriminate.
+  - discriminate.
+  - sp. rewrite a7. discriminate.
+Qed.
+
+Lemma invB_deliver s : InvA s -> InvB s -> guard_fence s Deliver = true -> InvB (step s Deliver).
+Proof.
+  intros IA IB G. cbn [step]. destruct (pending s) as [|[|] r] eqn:Pe; [exact IB| |].
+  - assert (St : started s = true) by (apply invA_started_of_pending; [exact IA|rewrite Pe; discriminate]).
+    pose proof IA as [Ipre Iabs Ikids Idw Iver Iwat Ifresh Iwi Ie1]. destruct IB as [Bal Bpd Bse Be2].
+    specialize (Idw St). rewrite Pe in Idw, Bal, Bpd. cbn [count_pd count_pc] in Idw, Bal, Bpd.
+    apply data_body_invB.
+    + split; sp; auto.
+      * destruct (dw s); lia.
+      * apply (WI_ext s); try reflexivity. exact Iwi.
+    + unfold sar_runs. sp. cbn [orb]. intros H. apply andb_true_iff in H as [H1 H2].
+      apply negb_true_iff in H1. unfold guard_fence in G. rewrite Pe, H1 in G.
+      destruct (dver s); [|discriminate]. destruct (queue s); [|discriminate]. destruct (wk s); [discriminate|]. auto.
+    + sp. exact Bal.
+    + sp. intros _. apply Bpd. lia.
+    + exact Be2.
+  - assert (St : started s = true) by (apply invA_started_of_pending; [exact IA|rewrite Pe; discriminate]).
+    pose proof IA as [Ipre Iabs Ikids Idw Iver Iwat Ifresh Iwi Ie1]. destruct IB as [Bal Bpd Bse Be2].
+    rewrite Pe in Bal, Bpd. cbn [count_pd count_pc] in Bal, Bpd.
+    unfold children_body. sp. destruct (parent s) eqn:P.
+    + set (t := set_cw (S (cw s)) (set_pending r s)).
+      assert (E2 : forall n, mem n (nodes t) = true -> expects t n = false -> parent t && mem n (kids t) = false).
+      { intros n. change (expects t n) with (expects s n). subst t. sp. rewrite P. exact (Be2 n). }
+      pose proof (osc_e2 t P E2) as E3. change (kids t) with (kids s) in E3.
+      split.
+      * unfold on_set_changed. subst t. sp. intros _ _. lia.
+      * unfold on_set_changed. subst t. sp. rewrite P. discriminate.
+      * unfold on_set_changed. subst t. sp. rewrite P. discriminate.
+      * intros n Hn He. specialize (E3 n Hn He). unfold on_set_changed. subst t. sp. rewrite ?P in *. exact E3.
+    + split; sp.
+      * rewrite P. discriminate.
+      * rewrite P. exact Bpd.
+      * rewrite P. exact Bse.
+      * rewrite P. exact Be2.
+Qed.
+
+Lemma invB_step s l : InvA s -> InvB s ->
+  guard_fence s l = true -> guard_noflap s l = true -> guard_path s l = true -> InvB (step s l).
+Proof.
+  intros IA IB G1 G2 G3. destruct l.
+  - apply invB_start; assumption.
+  - apply invB_create_parent; assumption.
+  - apply invB_delete_parent; assumption.
+  - apply invB_touch_parent; assumption.
+  - apply invB_create; assumption.
+  - apply invB_delete; assumption.
+  - apply invB_deliver; assumption.
+  - apply invB_worker; assumption.
+  - apply invB_raise; assumption.
+Qed.
+
+Lemma invAB_run ls : forall s, InvA s -> InvB s -> guarded guard_all s ls = true -> InvA (run s ls) /\ InvB (run s ls).
+Proof.
+  induction ls as [|l r IH]; intros s IA IB G; [split; assumption|]. cbn [guarded] in G.
+  apply andb_true_iff in G as [G1 G2]. unfold guard_all in G1.
+  apply andb_true_iff in G1 as [G1 G13]. apply andb_true_iff in G1 as [G11 G12].
+  cbn [run fold_left]. apply IH; [apply invA_step; assumption|apply invB_step; assumption|exact G2].
+Qed.
+
+(* ---------------------------------------------------------------------------------------------- *)
+(* the two conclusions                                                                             *)
+Lemma converges_of_inv s : InvA s -> InvB s -> quiescent s ->
+  forall n, mem n (view (log s)) = mem n (tree_members s).
+Proof.
+  intros IA [Bal Bpd Bse Be2] (St & Pe & Q & K) n.
+  pose proof IA as [Ipre Iabs Ikids Idw Iver Iwat Ifresh Iwi Ie1].
+  assert (C : count_pd (pending s) = 0%nat) by (rewrite Pe; reflexivity).
+  destruct (settled_view s IA C) as (Sv & _). destruct (Sv St) as (Dw & V).
+  rewrite (wi_view s Iwi). unfold tree_members.
+  assert (Ex : forall m, expects s m = mem m (members s)).
+  { intros m. unfold expects, outstanding. rewrite K, Q. reflexivity. }
+  destruct (parent s) eqn:P.
+  - assert (Wt : watching s = true) by (rewrite Iwat, V; unfold cur_ver; rewrite P; reflexivity).
+    specialize (Bal eq_refl Wt). rewrite Pe in Bal. cbn [count_pc] in Bal.
+    assert (Cw : (1 <= cw s)%nat) by lia. specialize (Ifresh Cw n). rewrite <- Ifresh.
+    specialize (Ie1 n). specialize (Be2 n). rewrite Ex in Ie1, Be2. rewrite Ifresh, mem_filter in Be2. cbn [andb] in Be2.
+    rewrite Ifresh in Ie1. rewrite Ifresh.
+    destruct (mem n (members s)) eqn:M; [symmetry; apply Ie1; reflexivity|].
+    destruct (mem n (filter (flt s) (kids s))) eqn:F; [|reflexivity].
+    rewrite mem_filter in F. apply andb_true_iff in F as [F1 F2]. rewrite F1, F2 in Be2.
+    specialize (Be2 eq_refl eq_refl). discriminate.
+  - destruct (Bse St eq_refl Dw) as (M & _). rewrite M. reflexivity.
+Qed.
